@@ -29,7 +29,7 @@ TOP_FLAGS = ["top_aa", "top_bb", "top_cc"]
 NEST_FLAGS = ["n_aa", "n_bb", "n_uint", "n_outer", "n_cc"]
 TYPE_PROBES = ["Aa", "Bb", "UInt", "Outer", "Cc", "Outer.Aa", "Outer.Outer", "im.Aa", "im.Bb", "Zz", "im.Zz", "Outer.Bb"]
 VALUE_PROBES = ["x", "xa", "p", "Bb.VV", "Outer.Bb.VV", "im.Bb.VV", "VV", "y.x", "y.xa", "o.x", "o.xa", "Aa.k", "im.Aa.k", "zz",
-                "x.y", "Outer.x", "im.Aa.x", "Cc.VV", "im", "ya.x", "oy.x", "o.y.x", "o.ya.x", "oy.k", "ya.zz"]
+                "x.y", "Outer.x", "im.Aa.x", "Cc.VV", "im", "ya.x", "oy.x", "o.y.x", "o.ya.x", "oy.k", "ya.zz", "o.p", "p.x", "o.p.x"]
 SITES_TYPE = ["outer_field", "nested_field", "dd_field"]
 SITES_VALUE = ["outer_let", "nested_let", "dd_let", "outer_sreq", "enum_value"]
 
@@ -129,7 +129,8 @@ def members(node):
     if node.kind == "field":
         if node.ftype is None:
             return None          # noncomposite
-        return [c for c in node.ftype.children if c.vis == "local"]
+        # only fields (and virtual fields) are members of a field; the parameters of its type are not reachable
+        return [c for c in node.ftype.children if c.vis == "local" and c.kind != "param"]
     return None
 
 
